@@ -28,12 +28,23 @@ def extract_variable(inference_state, path, module_node, name, pos, until_pos):
     return Refactoring(inference_state, file_to_node_changes)
 
 
+def _is_keyword_argument_name(node):
+    # The foo in bar(foo=3).
+    parent = node.parent
+    return node.type == 'name' and parent is not None and parent.type == 'argument' \
+        and parent.children[0] is node and len(parent.children) == 3 \
+        and parent.children[1] == '='
+
+
 def _is_expression_with_error(nodes):
     """
     Returns a tuple (is_expression, error_string).
     """
     if any(node.type == 'name' and node.is_definition() for node in nodes):
         return False, 'Cannot extract a name that defines something'
+
+    if any(_is_keyword_argument_name(node) for node in nodes):
+        return False, 'Cannot extract the name of a keyword argument'
 
     if nodes[0].type not in _VARIABLE_EXCTRACTABLE:
         return False, 'Cannot extract a "%s"' % nodes[0].type
